@@ -1,1 +1,97 @@
-// harness stub: nothing here yet
+// Correspondence harness for daemon/src/gr.rs (properties C10, C11).
+// Included as the body of `gr::verif_hx` under cfg(all(test, osrg_rustybgp_verif)).
+//
+// case = [0, gr_peers, duration, inputs]   RestartingDeferral::{new, process}   (C11)
+// case = [1, inputs]                        GrState::{new, process}             (C10)
+use super::*;
+
+#[allow(dead_code)]
+mod val {
+    include!(concat!(env!("VERIF_HX_DIR"), "/common/val.rs"));
+}
+use val::Val;
+
+fn fam_of(v: &Val) -> Family {
+    let x = v.u32();
+    Family::new((x >> 16) as u16, (x & 0xff) as u8)
+}
+fn fam_val(f: &Family) -> Val {
+    Val::n(((f.afi() as u32) << 16) | f.safi() as u32)
+}
+fn fams_of(v: &Val) -> Vec<Family> {
+    v.list().iter().map(fam_of).collect()
+}
+fn fams_val_sorted(l: &[Family]) -> Val {
+    let mut c: Vec<u32> = l.iter().map(|f| ((f.afi() as u32) << 16) | f.safi() as u32).collect();
+    c.sort();
+    Val::L(c.into_iter().map(Val::n).collect())
+}
+fn peer_of(v: &Val) -> IpAddr {
+    IpAddr::V4(std::net::Ipv4Addr::new(192, 0, 2, v.u8()))
+}
+fn dur_opt(v: &Val) -> Option<Duration> {
+    v.list().first().map(|d| Duration::from_secs(d.u64()))
+}
+
+// ------------------------------------------------------------------ C11
+
+fn rd_output_val(o: &RestartingOutput) -> Val {
+    match o {
+        // the family list is given as the code produced it (new() sorts it)
+        RestartingOutput::DeferFamilies(l) => {
+            Val::L(vec![Val::n(0u8), Val::L(l.iter().map(fam_val).collect())])
+        }
+        RestartingOutput::StartDeferralTimer(d) => {
+            Val::L(vec![Val::n(1u8), Val::opt(d.map(|d| Val::n(d.as_secs())))])
+        }
+        RestartingOutput::FamilyDeferralComplete(f) => Val::L(vec![Val::n(2u8), fam_val(f)]),
+        // hash-set order: canonicalised by sorting
+        RestartingOutput::EndDeferral(l) => Val::L(vec![Val::n(3u8), fams_val_sorted(l)]),
+    }
+}
+
+fn rd_input_of(v: &Val) -> RestartingInput {
+    let l = v.list();
+    match l[0].int() {
+        0 => RestartingInput::PeerEstablished(peer_of(&l[1]), fams_of(&l[2])),
+        1 => RestartingInput::EorReceived(peer_of(&l[1]), fam_of(&l[2])),
+        2 => RestartingInput::PeerWithdrawn(peer_of(&l[1])),
+        3 => RestartingInput::TimerExpired,
+        t => panic!("verif: bad restarting input tag {}", t),
+    }
+}
+
+fn run_rd_case(l: &[Val]) -> Val {
+    let mut map: FnvHashMap<IpAddr, Vec<Family>> = FnvHashMap::default();
+    for e in l[1].list() {
+        map.insert(peer_of(e.at(0)), fams_of(e.at(1)));
+    }
+    let (mut rd, outs) = RestartingDeferral::new(map, dur_opt(&l[2]));
+    let completed0 = rd.is_completed();
+    let mut steps = Vec::new();
+    for i in l[3].list() {
+        let o = rd.process(rd_input_of(i));
+        steps.push(Val::L(vec![
+            Val::L(o.iter().map(rd_output_val).collect()),
+            Val::b(rd.is_completed()),
+        ]));
+    }
+    Val::L(vec![
+        Val::L(outs.iter().map(rd_output_val).collect()),
+        Val::b(completed0),
+        Val::L(steps),
+    ])
+}
+
+fn run_case(case: &Val) -> Val {
+    let l = case.list();
+    match l[0].int() {
+        0 => run_rd_case(l),
+        t => panic!("verif: bad gr case kind {}", t),
+    }
+}
+
+#[test]
+fn verif_gr_cases() {
+    val::run_cases(run_case);
+}
